@@ -54,18 +54,27 @@ BASIC_HEADER = cdc.HEADER + "From PV Require Import Circuit.Registry Circuit.Tok
 
 
 def basic_shard_text(ctx, cases):
-    """basic syntax (to_string(), decimals=-1): the printer model, the parser model and the SPECIFICATION [pconn] used by the
-    theorem C03_basic_round_trip, all against what the implementation printed and parsed"""
+    """basic syntax (to_string(), decimals=-1): the printer model, the parser model and the SPECIFICATIONS used by the theorems
+    C03_basic_round_trip / _whitespace_insensitive (pconn) and C03_basic_implicit_outer_series, all against what the implementation
+    printed and parsed.  kind 0 = the printed text, 1 = with white space inserted, 2 = without the outer brackets"""
     items = []
-    for i, tlit, text, obs, exact in cases:
-        items.append("(%d%%Z, %s, %s, %s, %s)" % (i, tlit, lib.codepoints(text), cdc.outcome_lit(ctx, obs), "true" if exact else "false"))
-    return ("Definition cases : list (Z * conn * str * outcome conn * bool) := [\n" + ";\n".join(items) + "].\n"
+    for i, tlit, text, obs, kind in cases:
+        items.append("(%d%%Z, %s, %s, %s, %d%%nat)" % (i, tlit, lib.codepoints(text), cdc.outcome_lit(ctx, obs), kind))
+    return ("Definition cases : list (Z * conn * str * outcome conn * nat) := [\n" + ";\n".join(items) + "].\n"
             "Definition F := 280%nat.\n"
             "Definition is_err (o : outcome conn) : bool := match o with Err _ => true | _ => false end.\n"
-            "Definition result : list Z := flat_map (fun c : Z * conn * str * outcome conn * bool => let '(i, t, text, o, exact) := c in\n"
-            "  if (if exact then str_eqb (to_string builtin_registry None t F) text else true)\n"
+            "Definition implicit_expected (t : conn) : option conn :=\n"
+            "  match t with\n"
+            "  | Ser l => match (fix go (l : list node) : option (list node) := match l with [] => Some [] | x :: r =>\n"
+            "                      match pnode builtin_registry F x, go r with Some a, Some b => Some (a :: b) | _, _ => None end end) l with\n"
+            "             | Some [] => None | Some [x'] => Some (top x') | Some l' => Some (Ser l') | None => None end\n"
+            "  | _ => None end.\n"
+            "Definition result : list Z := flat_map (fun c : Z * conn * str * outcome conn * nat => let '(i, t, text, o, kind) := c in\n"
+            "  if (match kind with O => str_eqb (to_string builtin_registry None t F) text | _ => true end)\n"
             "     && outcome_close F (parse builtin_registry text) o\n"
-            "     && (match pconn builtin_registry F t with Some n => outcome_close F (Ok (top n)) o | None => is_err o end)\n"
+            "     && (match kind with\n"
+            "         | 2%nat => match implicit_expected t with Some e => outcome_close F (Ok e) o | None => is_err o end\n"
+            "         | _ => match pconn builtin_registry F t with Some n => outcome_close F (Ok (top n)) o | None => is_err o end end)\n"
             "  then [] else [i]) cases.\n")
 
 
@@ -110,8 +119,8 @@ def run(rep, tier, seed, tr_errors):
         "tools/cdc.py: circuit generator and the spelling printer (the oracle for alternative spellings)",
     ]
     thm_ok, names, out = lib.check_props_file(rep, PROPS_FILE, expect=["C03_container_scope", "C03_one_node_per_step", "C03_basic_text_lexes_exactly", "C03_builtin_registry_symbols_valid",
-                                                                    "C03_basic_round_trip", "C03_basic_round_trip_parse", "C03_basic_whitespace_insensitive", "C03_basic_round_trip_applies"])
-    thm_ok2, _, _ = lib.check_props_file(rep, "Props/C03_Sem.v", expect=["C03_basic_round_trip_same_impedance", "C03_parse_results_well_formed"])
+                                                                    "C03_basic_round_trip", "C03_basic_round_trip_parse", "C03_basic_whitespace_insensitive", "C03_basic_implicit_outer_series", "C03_basic_round_trip_applies"])
+    thm_ok2, _, _ = lib.check_props_file(rep, "Props/C03_Sem.v", expect=["C03_basic_round_trip_same_impedance", "C03_implicit_series_same_impedance", "C03_parse_results_well_formed"])
     thm_ok = thm_ok and thm_ok2
     n_rt = 250 if tier == "quick" else 5000
     n_sp = 400 if tier == "quick" else 8000
@@ -158,14 +167,19 @@ def run(rep, tier, seed, tr_errors):
     for _ in range(150 if tier == "quick" else 3000):
         c = cdc.rand_circuit(ctx, rng, depth=rng.randint(0, 4), digits=3)
         text = c.to_string()
-        bcases.append((i, circuit_lit.circuit_lit(c, ctx.rows, ctx.idx), text, cdc.parse_observe(text), True))
+        bcases.append((i, circuit_lit.circuit_lit(c, ctx.rows, ctx.idx), text, cdc.parse_observe(text), 0))
         rep.evaluations += 1
         i += 1
+        if rng.random() < 0.4 and text.startswith("[") and text.endswith("]") and len(text) > 2:
+            # the implicit outer series: the same text without its outer brackets (C03_basic_implicit_outer_series)
+            bcases.append((i, circuit_lit.circuit_lit(c, ctx.rows, ctx.idx), text[1:-1], cdc.parse_observe(text[1:-1]), 2))
+            rep.evaluations += 1
+            i += 1
         if rng.random() < 0.4:
             # the same text with white space before brackets and symbols and at both ends (C03_basic_whitespace_insensitive)
             sp = "".join((rng.choice(["", " ", "  ", "\t", "\n"]) if (ch in "[]()" or ch.isupper()) else "") + ch for ch in text)
             sp = rng.choice(["", " ", "\n"]) + sp + rng.choice(["", " ", " \t"])
-            bcases.append((i, circuit_lit.circuit_lit(c, ctx.rows, ctx.idx), sp, cdc.parse_observe(sp), False))
+            bcases.append((i, circuit_lit.circuit_lit(c, ctx.rows, ctx.idx), sp, cdc.parse_observe(sp), 1))
             rep.evaluations += 1
             i += 1
     rep.samples = [{"kind": k, "decimals": d, "text": t[:200], "parsed": (o[1].to_string() if o[0] == "ok" else o[1])}
